@@ -141,6 +141,25 @@ class Ctx:
                          (module, cfg, r["inv"], r["dir"]))
         return r
 
+    def apalache(self, module, init, inv, length, timeout=1800):
+        """One Apalache obligation (spec/apalache): returns True iff `NoError'."""
+        d = os.path.join(self.work, "apa%d" % next(_tlc_counter))
+        shutil.copytree(os.path.join(SPEC, "apalache"), d)
+        cmd = ["apalache-mc", "check", "--cinit=ConstInit", "--init=" + init, "--inv=" + inv, "--length=%d" % length, module]
+        t0 = time.time()
+        try:
+            p = subprocess.run(cmd, cwd=d, capture_output=True, text=True, timeout=timeout)
+        except subprocess.TimeoutExpired:
+            raise Broken("apalache timed out on %s %s %s" % (module, init, inv))
+        ok = "The outcome is: NoError" in p.stdout
+        self.coverage_extra.setdefault("apalache_obligations", []).append(
+            dict(module=module, init=init, inv=inv, length=length, ok=ok, wall_s=round(time.time() - t0, 1)))
+        shutil.rmtree(d, ignore_errors=True)
+        if not ok:
+            raise Broken("apalache obligation failed: %s --init=%s --inv=%s --length=%d\n%s" %
+                         (module, init, inv, length, "\n".join(p.stdout.splitlines()[-15:])))
+        return ok
+
     def generate(self, module, cfg_name, cfg_text, out, simulate=None, workers=8, timeout=900, limit=None):
         """Behaviour generation: run a Gen_* module whose CONSTRAINT prints
         <<"HIST", json>> lines; write the distinct histories to `out'."""
